@@ -16,12 +16,13 @@ import (
 // Plan is the explicit, replayable description of one run: the runtime seed plus the
 // scenario-specific plan (generated from the seed once, then stored and minimised as data).
 type Plan struct {
-	Scenario string          `json:"scenario"`
-	Seed     uint64          `json:"seed"`
-	Tier     string          `json:"tier,omitempty"`
-	Transfer *TransferPlan   `json:"transfer,omitempty"`
-	Seeding  *SeedPlan       `json:"seeding,omitempty"`
-	Generic  json.RawMessage `json:"generic,omitempty"`
+	Scenario  string          `json:"scenario"`
+	Seed      uint64          `json:"seed"`
+	Tier      string          `json:"tier,omitempty"`
+	Transfer  *TransferPlan   `json:"transfer,omitempty"`
+	Seeding   *SeedPlan       `json:"seeding,omitempty"`
+	Lifecycle *LifePlan       `json:"lifecycle,omitempty"`
+	Generic   json.RawMessage `json:"generic,omitempty"`
 }
 
 func (p *Plan) Hash() string {
